@@ -18,7 +18,7 @@ TRUSTED = [
 ASSUMPTIONS = ["no call times out (excluded by the property); one application thread per client"]
 RULE = ("sequences of 3..12 calls per client over {fast, slow (callLater), failing, asynchronously failing, None-returning, server-identifying} operations, "
         "issued before or after the connection is established, one client or two clients driven concurrently from two threads against two servers, "
-        "and clients whose connection cannot be established (TCP connection refused, or a server that insists on VNC authentication while no password was given); non-trivial = distinct call sequence containing a failing or None-returning call followed by another call")
+        "and clients whose connection cannot be established (TCP connection refused, a host name that does not resolve, or a server that insists on VNC authentication while no password was given); non-trivial = distinct call sequence containing a failing or None-returning call followed by another call")
 
 
 class Server(threading.Thread):
@@ -320,7 +320,9 @@ def run(ctx):
         for si in range(n):
             two = r.random() < .5
             refused = r.random() < .25
-            how_refused = r.choice(["tcp", "auth"]) if refused else None
+            how_refused = r.choice(["tcp", "auth", "dns"]) if refused else None
+            if si == 4:
+                refused, how_refused = True, "dns"
             if si == 3:
                 refused, how_refused = True, "auth"
             del LOG[:]
@@ -336,7 +338,8 @@ def run(ctx):
             for ci, calls in enumerate(specs):
                 srv = (srvA, srvB)[ci]
                 port = (deadport if how_refused == "tcp" else srvAuth.port) if (refused and ci == 0) else srv.port
-                cl = api.connect("127.0.0.1::%d" % port, factory_class=ProbeFactory, timeout=8)
+                target = "no-such-host.invalid::5900" if (refused and ci == 0 and how_refused == "dns") else "127.0.0.1::%d" % port
+                cl = api.connect(target, factory_class=ProbeFactory, timeout=8)
                 clients.append(cl)
                 out = []
                 outs.append(out)
